@@ -141,7 +141,23 @@ def realise(shape, pool):
     if k == 'l':
         return [realise(s, pool) for s in shape[1]]
     if k == 'cl':
-        return ChannelList([realise(s, pool) for s in shape[1]])
+        items = [realise(s, pool) for s in shape[1]]
+        how = shape[2] if len(shape) > 2 else None
+        # a channel list is a list: it may get its elements after creation
+        if how == 'append':
+            cl = ChannelList(items[:-1])
+            cl.append(items[-1])
+            return cl
+        if how == 'setitem':
+            cl = ChannelList([0] * len(items))
+            for i, x in enumerate(items):
+                cl[i] = x
+            return cl
+        if how == 'extend':
+            cl = ChannelList(items[:1])
+            cl.extend(items[1:])
+            return cl
+        return ChannelList(items)
     raise ValueError(shape)
 
 
@@ -334,7 +350,11 @@ def list_shape(max_depth):
         elem = st.one_of(elem, elem, st.deferred(
             lambda: list_shape(max_depth - 1)))
     return st.tuples(st.sampled_from(['l', 'l', 'cl']),
-                     st.lists(elem, min_size=1, max_size=4)).map(list)
+                     st.lists(elem, min_size=1, max_size=4),
+                     st.sampled_from([None, None, 'append', 'setitem',
+                                      'extend'])).map(
+        lambda t: [t[0], t[1], t[2]] if t[0] == 'cl' and t[2]
+        else [t[0], t[1]])
 
 
 def arg_shape():
